@@ -354,6 +354,120 @@ fn check_display(spec: &'static Spec, variant: &str, rep: &mut Report) {
     }
 }
 
+/// clauses 4 and 5 for the other display-type calls and contexts: display after every full-frame
+/// entry point and after settings changes, display_new_frame, combined new-frame call
+fn check_display_more(spec: &'static Spec, variant: &str, rep: &mut Report) {
+    // (4) in contexts: [settings?; full entry (+ protocol prefix); display]
+    let mut settings: Vec<Option<Op>> = vec![None, Some(Op::arg(K::SetBg, 0))];
+    if spec.has(K::SetLut) {
+        settings.push(Some(Op::arg(K::SetLut, 2)));
+    }
+    if spec.has(K::SetRefresh) {
+        settings.push(Some(Op::arg(K::SetRefresh, 2)));
+    }
+    for st in &settings {
+        for fe in spec.full {
+            // which display call completes this entry point
+            let disp: Vec<K> = match fe.k {
+                K::UpdateAndDisplay | K::UpdateAndDisplayNew | K::UpdateAndDisplayBase => vec![],
+                K::UpdateNew if spec.has(K::DisplayNew) => vec![K::DisplayNew, K::Display],
+                K::UpdateOld | K::Achromatic => vec![],
+                _ => vec![K::Display],
+            };
+            for dk in disp {
+                rep.eval(spec.name);
+                let mut rig = Rig::simple(spec);
+                let mut ops: Vec<Op> = Vec::new();
+                if let Some(s) = st {
+                    ops.push(s.clone());
+                }
+                if let Some(a) = fe.after {
+                    ops.push(frame_op(spec, a, 55));
+                }
+                ops.push(frame_op(spec, fe.k, 56));
+                let mut ok = true;
+                for o in &ops {
+                    if !rig.apply(o).is_ok() {
+                        ok = false;
+                    }
+                }
+                if !ok {
+                    rep.count("contexts_with_failing_predecessor", 1);
+                    continue;
+                }
+                rig.board.borrow_mut().chip_mut().mark();
+                let o = rig.apply(&Op::new(dk));
+                ops.push(Op::new(dk));
+                let case = case_json(spec, variant, &ops);
+                rep.nontrivial(hash_str(&format!("{}|disp-more|{}", spec.name, ops_short(&ops))));
+                if !o.is_ok() {
+                    rep.fail(Failure { panel: spec.name.into(), entry: dk.name().into(), class: "panic".into(), tags: vec![], detail: o.short(), case });
+                    continue;
+                }
+                let b = rig.board.borrow();
+                let chip = b.chip();
+                let n = refresh_count_in_last_op(chip);
+                rep.count("refresh_triggers_observed", n as u64);
+                let ctx_tag = format!("after:{}", ops[..ops.len() - 1].iter().map(|o| sym_tag(o)).collect::<Vec<_>>().join("+"));
+                if n != 1 {
+                    rep.fail(Failure { panel: spec.name.into(), entry: dk.name().into(), class: "refresh-count≠1".into(), tags: vec![format!("n={}", n), ctx_tag.clone()], detail: format!("{} sent {} refresh triggers (history: {})", dk.name(), n, ops_short(&ops)), case: case.clone() });
+                }
+                let w = chip.planes[0].writes + chip.planes[1].writes + chip.planes[0].pattern_fills as u64 + chip.planes[1].pattern_fills as u64;
+                if w != 0 {
+                    rep.fail(Failure { panel: spec.name.into(), entry: dk.name().into(), class: "image-data-in-display".into(), tags: vec![ctx_tag], detail: format!("{} wrote {} bytes of image memory (history: {})", dk.name(), w, ops_short(&ops)), case });
+                }
+            }
+        }
+    }
+    // (5) for the quick-refresh combined call: update_and_display_new_frame == update_new_frame; display_new_frame
+    if spec.has(K::UpdateAndDisplayNew) && spec.has(K::DisplayNew) {
+        rep.eval(spec.name);
+        let e = spec.full_entry(K::UpdateNew).unwrap();
+        let mut a = Rig::simple(spec);
+        let mut c = Rig::simple(spec);
+        let old = frame_op(spec, K::UpdateOld, 61);
+        let img = frame_img(spec, K::UpdateNew, 62);
+        let r: Vec<Outcome> = vec![a.apply(&old), a.apply(&Op::img(K::UpdateNew, img.clone())), a.apply(&Op::new(K::DisplayNew)), c.apply(&old), c.apply(&Op::img(K::UpdateAndDisplayNew, img.clone()))];
+        let ops = vec![old.clone(), Op::img(K::UpdateAndDisplayNew, img.clone())];
+        let case = case_json(spec, variant, &ops);
+        rep.nontrivial(hash_str(&format!("{}|combined-new", spec.name)));
+        if r.iter().any(|o| !o.is_ok()) {
+            rep.fail(Failure { panel: spec.name.into(), entry: "update_and_display_new_frame".into(), class: "panic".into(), tags: vec![], detail: format!("{:?}", r.iter().map(|o| o.short()).collect::<Vec<_>>()), case });
+        } else {
+            let (ba, bc) = (a.board.borrow(), c.board.borrow());
+            if ba.chip().planes[e.plane].data != bc.chip().planes[e.plane].data {
+                rep.fail(Failure { panel: spec.name.into(), entry: "update_and_display_new_frame".into(), class: "combined≠sequence".into(), tags: vec!["plane".into()], detail: "primary plane differs between the combined new-frame call and the two-call sequence".into(), case: case.clone() });
+            }
+            if ba.chip().refreshes.len() != bc.chip().refreshes.len() || bc.chip().refreshes.len() != 1 {
+                rep.fail(Failure { panel: spec.name.into(), entry: "update_and_display_new_frame".into(), class: "combined≠sequence".into(), tags: vec!["refresh-count".into()], detail: format!("combined call: {} refreshes, sequence: {}", bc.chip().refreshes.len(), ba.chip().refreshes.len()), case });
+            }
+        }
+    }
+    // (5) in settings contexts for the plain combined call
+    for st in settings.iter().flatten() {
+        let Some(e) = spec.full_entry(K::UpdateFrame) else { continue };
+        rep.eval(spec.name);
+        let img = frame_img(spec, K::UpdateFrame, 63);
+        let mut a = Rig::simple(spec);
+        let mut c = Rig::simple(spec);
+        let r = vec![a.apply(st), a.apply(&Op::img(K::UpdateFrame, img.clone())), a.apply(&Op::new(K::Display)), c.apply(st), c.apply(&Op::img(K::UpdateAndDisplay, img.clone()))];
+        let ops = vec![st.clone(), Op::img(K::UpdateAndDisplay, img.clone())];
+        let case = case_json(spec, variant, &ops);
+        rep.nontrivial(hash_str(&format!("{}|combined-ctx|{}", spec.name, st.short())));
+        if r.iter().any(|o| !o.is_ok()) {
+            rep.count("contexts_with_failing_predecessor", 1);
+            continue;
+        }
+        let (ba, bc) = (a.board.borrow(), c.board.borrow());
+        if ba.chip().planes[e.plane].data != bc.chip().planes[e.plane].data {
+            rep.fail(Failure { panel: spec.name.into(), entry: "update_and_display_frame".into(), class: "combined≠sequence".into(), tags: vec!["plane".into(), format!("after:{}", sym_tag(st))], detail: "primary plane differs between the combined call and the two-call sequence".into(), case: case.clone() });
+        }
+        if ba.chip().refreshes.len() != bc.chip().refreshes.len() {
+            rep.fail(Failure { panel: spec.name.into(), entry: "update_and_display_frame".into(), class: "combined≠sequence".into(), tags: vec!["refresh-count".into(), format!("after:{}", sym_tag(st))], detail: format!("combined call: {} refreshes, sequence: {}", bc.chip().refreshes.len(), ba.chip().refreshes.len()), case });
+        }
+    }
+}
+
 /// physical pixel of logical (x,y) under rotation r — closed form, independent of graphics.rs
 fn rot(spec: &Spec, r: u32, x: u32, y: u32) -> (u32, u32) {
     match r & 3 {
@@ -605,6 +719,7 @@ pub fn run(ctx: &Ctx) -> Report {
     let mut rep = par_run(&cases, ctx.threads, |_, c, rep| check_frame(c, &variant, rep));
     for spec in panels_for(ctx) {
         check_display(spec, &ctx.variant, &mut rep);
+        check_display_more(spec, &ctx.variant, &mut rep);
     }
     // pixel path
     let mut pcs: Vec<PixCase> = Vec::new();
